@@ -688,6 +688,13 @@ func parseCall(expr string, n *promParser.Call) (src []Source) {
 				es.Operation = n.Func.Name
 				es.Call = n
 				es.Position = e.PositionRange()
+				switch n.Func.Name {
+				case "sort", "sort_desc", "label_replace", "label_join":
+					// These functions don't change the value.
+				default:
+					// Function calls return a value that's calculated from the value of the argument.
+					es.KnownReturn = false
+				}
 				src = append(src, parsePromQLFunc(es, expr, n))
 			}
 		case promParser.ValueTypeNone, promParser.ValueTypeScalar, promParser.ValueTypeString:
